@@ -173,6 +173,14 @@ class LoopbackSoapClient:
             raise verdict
         if isinstance(verdict, tuple) and verdict[0] == 'delay':
             return wire, None, float(verdict[1])
+        if isinstance(verdict, tuple) and verdict[0] == 'after':
+            # the message arrives, the answer gets lost: the sender sees the failure
+            wire.outcome = 'answer-lost:' + type(verdict[1]).__name__
+            try:
+                net.deliver(wire)
+            except Exception:  # noqa: BLE001
+                pass
+            raise verdict[1]
         return wire, None, 0
 
     def _complete(self, wire):
